@@ -34,7 +34,7 @@ MANIFEST = dict(
          "exact-size arenas), socket addresses (IPv4, IPv6 in several RFC 4291 spellings, Unix paths up to the sun_path limit through resolve / dup / "
          "serialize / prettyprint / cmp), and json_find on objects rendered from an abstract value with white space at every legal position, "
          "duplicate, prefix-related and \\u-escaped names. Every expected result is known by construction; inputs and outputs live in exact-size heap "
-         "blocks under ASan/UBSan. Exploration is the right level: the input spaces are unbounded strings and the oracles are exact.",
+         "blocks under ASan/UBSan. Exploration is the right level: the input spaces are unbounded strings and the oracles are exact. JSON values nested 30..1000 containers deep (valid) occur before and after the wanted key.",
     note="Trusted: clang 14 + ASan/UBSan, rapidcheck, OpenSSL EVP_EncodeBlock, glibc sockaddr layouts, the renderers/classifiers in props/C17/core.cpp "
          "(self-tested at start-up against RFC 4648 s10 and RFC 4291/5952 examples; the JSON renderer is guarded on every case by a strict RFC 8259 checker). "
          "Host-name resolution is excluded (system resolver). Non-zero trailing bits in base-64 get no acceptance verdict (RFC 4648 s3.5 leaves it open).",
